@@ -764,76 +764,57 @@ fn chi2_two_sample(a: &[u32], b: &[u32]) -> (f64, usize) {
     (s, used)
 }
 
-/// Finds a GF(2)-affine relation (set of bit positions, position d = the constant 1) that holds
-/// for every sample of `x` but is violated by some sample of `y`.
-fn gf2_relation_broken(x: &[Vec<u8>], y: &[Vec<u8>], d: usize) -> Option<Vec<usize>> {
-    let cols = d + 1;
-    let words = (cols + 63) / 64;
-    let row_of = |s: &Vec<u8>| -> Vec<u64> {
-        let mut r = vec![0u64; words];
-        for i in 0..d {
-            if (s[i / 8] >> (i % 8)) & 1 == 1 {
-                r[i / 64] |= 1 << (i % 64);
-            }
+/// Affine span over GF(2) of a set of bit vectors (each extended by a constant-1 coordinate), kept
+/// as a reduced row basis; `contains` reduces a vector against it.
+struct Gf2Span {
+    words: usize,
+    d: usize,
+    /// (pivot column, row)
+    basis: Vec<(usize, Vec<u64>)>,
+}
+
+impl Gf2Span {
+    fn row(&self, s: &[u8]) -> Vec<u64> {
+        let mut r = vec![0u64; self.words];
+        for (i, b) in s.iter().enumerate() {
+            r[i / 8] |= (*b as u64) << ((i % 8) * 8);
         }
-        r[d / 64] |= 1 << (d % 64);
+        r[self.d / 64] |= 1 << (self.d % 64);
         r
-    };
-    let mut m: Vec<Vec<u64>> = x.iter().map(row_of).collect();
-    // row-reduce (RREF)
-    let mut pivot_of_col: Vec<Option<usize>> = vec![None; cols];
-    let mut rank = 0usize;
-    for c in 0..cols {
-        let mut p = None;
-        for r in rank..m.len() {
-            if (m[r][c / 64] >> (c % 64)) & 1 == 1 {
-                p = Some(r);
-                break;
+    }
+    fn reduce(&self, r: &mut Vec<u64>) {
+        for (p, b) in &self.basis {
+            if (r[p / 64] >> (p % 64)) & 1 == 1 {
+                for w in 0..self.words {
+                    r[w] ^= b[w];
+                }
             }
         }
-        if let Some(pr) = p {
-            m.swap(rank, pr);
-            let prow = m[rank].clone();
-            for r in 0..m.len() {
-                if r != rank && (m[r][c / 64] >> (c % 64)) & 1 == 1 {
-                    for w in 0..words {
-                        m[r][w] ^= prow[w];
+    }
+    fn new(samples: &[Vec<u8>], d: usize) -> Gf2Span {
+        let mut sp = Gf2Span { words: (d + 1 + 63) / 64, d, basis: vec![] };
+        for s in samples {
+            let mut r = sp.row(s);
+            sp.reduce(&mut r);
+            if let Some(p) = (0..=d).find(|i| (r[i / 64] >> (i % 64)) & 1 == 1) {
+                // keep the basis reduced: eliminate the new pivot from the older rows
+                for (_, b) in sp.basis.iter_mut() {
+                    if (b[p / 64] >> (p % 64)) & 1 == 1 {
+                        for w in 0..r.len() {
+                            b[w] ^= r[w];
+                        }
                     }
                 }
-            }
-            pivot_of_col[c] = Some(rank);
-            rank += 1;
-            if rank == m.len() {
-                break;
+                sp.basis.push((p, r));
             }
         }
+        sp
     }
-    // nullspace basis: one vector per free column
-    let yrows: Vec<Vec<u64>> = y.iter().map(row_of).collect();
-    for f in 0..cols {
-        if pivot_of_col[f].is_some() {
-            continue;
-        }
-        let mut rel = vec![0u64; words];
-        rel[f / 64] |= 1 << (f % 64);
-        for c in 0..cols {
-            if let Some(pr) = pivot_of_col[c] {
-                if (m[pr][f / 64] >> (f % 64)) & 1 == 1 {
-                    rel[c / 64] |= 1 << (c % 64);
-                }
-            }
-        }
-        for yr in &yrows {
-            let mut par = 0u32;
-            for w in 0..words {
-                par ^= (yr[w] & rel[w]).count_ones() & 1;
-            }
-            if par & 1 == 1 {
-                return Some((0..cols).filter(|i| (rel[i / 64] >> (i % 64)) & 1 == 1).collect());
-            }
-        }
+    fn contains(&self, s: &[u8]) -> bool {
+        let mut r = self.row(s);
+        self.reduce(&mut r);
+        r.iter().all(|w| *w == 0)
     }
-    None
 }
 
 pub fn oracle_sampled(c: &Case, n_tapes: usize, max_nodes: usize) -> Outcome {
@@ -919,6 +900,15 @@ pub fn oracle_sampled(c: &Case, n_tapes: usize, max_nodes: usize) -> Outcome {
     let mut reqs = Reqs { index: HashMap::new(), doms: vec![], by: vec![] };
     let pin_a = ideal_inputs(&p, &a, &mk_slots(&a));
     let pin_b = ideal_inputs(&p, &b, &mk_slots(&b));
+    // the number of sampled tapes grows with the view size so that the GF(2) span test applies
+    // (it needs twice (view bits + 128) samples), up to three times the base budget
+    let n_tapes = {
+        let v = p.exec.run([&pin_a[0], &pin_a[1], &pin_a[2]], &mut reqs, &Oracle::Sampled(1), false);
+        let bytes: usize = v.msgs[obs].iter().map(|(_, b)| b.len()).sum::<usize>()
+            + v.out[obs].as_ref().map(|b| b.len()).unwrap_or(0)
+            + v.req_vals[obs].iter().map(|(_, b)| b.len()).sum::<usize>();
+        n_tapes.max(2 * (bytes * 8 + 128)).min(3 * n_tapes)
+    };
     // collect views
     let full: std::cell::RefCell<Vec<Vec<u8>>> = std::cell::RefCell::new(vec![]);
     let collect = |pin: &[Vec<Value>; 3], reqs: &mut Reqs, base: u64| -> Result<Vec<Vec<u8>>, String> {
@@ -975,11 +965,15 @@ pub fn oracle_sampled(c: &Case, n_tapes: usize, max_nodes: usize) -> Outcome {
             );
         }
     }
-    // exact (up to 2^-100) test for GF(2)-affine leaks: every XOR-relation between bits of the
-    // view (messages, output, own mask values) that holds on ALL tapes for assignment A must hold
-    // on all tapes for assignment B and vice versa; this captures XOR-masked bit protocols
-    // completely and the least-significant-bit part of every additive relation (mask reuse,
-    // a leaked third share, ...)
+    // GF(2)-affine leak test. The affine span (over GF(2)) of the sampled views under assignment A
+    // is computed from one half of the samples; views under assignment B that fall OUTSIDE that
+    // span violate some XOR relation that holds on every sampled tape of A. If the two view
+    // distributions are equal, a fresh B view is outside span(A-half) exactly as often as a fresh
+    // A view is (the other half of A measures that rate: relations that hold "almost always",
+    // e.g. between x - r and y + r in high bits, make it non-zero). A leak (mask reuse, a leaked
+    // third share, an unmasked bit) puts a large fraction of B views outside. Alarm only if the
+    // outside fraction is >= 10 % AND >= 10 x the calibrated same-assignment rate, and only if the
+    // alarm repeats on two further independent sample sets.
     let mut rel_bits = 0usize;
     {
         let join = |v: &Vec<Vec<u8>>, o: &Vec<Vec<u8>>| -> Vec<Vec<u8>> {
@@ -988,15 +982,47 @@ pub fn oracle_sampled(c: &Case, n_tapes: usize, max_nodes: usize) -> Outcome {
         let fa = join(&va, &own_a);
         let fb = join(&vb, &own_b);
         let d = fa[0].len() * 8;
-        if fa.iter().chain(fb.iter()).all(|x| x.len() * 8 == d) && d + 128 <= fa.len().min(fb.len()) {
+        let half = fa.len().min(fb.len()) / 2;
+        if fa.iter().chain(fb.iter()).all(|x| x.len() * 8 == d) && d + 128 <= half {
             rel_bits = d;
-            for (name, x, y) in [("A", &fa, &fb), ("B", &fb, &fa)] {
-                if let Some(r) = gf2_relation_broken(x, y, d) {
+            let alarm = |fa: &Vec<Vec<u8>>, fb: &Vec<Vec<u8>>| -> Option<(String, usize, usize, usize)> {
+                for (name, x, y) in [("A", fa, fb), ("B", fb, fa)] {
+                    let span = Gf2Span::new(&x[..half], d);
+                    let base = x[half..2 * half].iter().filter(|v| !span.contains(v)).count();
+                    let out = y[half..2 * half].iter().filter(|v| !span.contains(v)).count();
+                    if out * 10 >= half && out >= 10 * (base + 5) {
+                        return Some((name.to_string(), out, base, half));
+                    }
+                }
+                None
+            };
+            if let Some((name, out, base, n)) = alarm(&fa, &fb) {
+                // repeat twice with fresh tapes
+                let mut confirmed = true;
+                for rep in 1..=2u64 {
+                    let va2 = collect(&pin_a, &mut reqs, c.tape_seed ^ (0xA5A5 + rep * 0x1111_0000_0000));
+                    let oa2: Vec<Vec<u8>> = full.borrow_mut().drain(..).collect();
+                    let vb2 = collect(&pin_b, &mut reqs, c.tape_seed ^ (0x5A5A_0000 + rep * 0x2222_0000_0000));
+                    let ob2: Vec<Vec<u8>> = full.borrow_mut().drain(..).collect();
+                    match (va2, vb2) {
+                        (Ok(va2), Ok(vb2)) => {
+                            if alarm(&join(&va2, &oa2), &join(&vb2, &ob2)).is_none() {
+                                confirmed = false;
+                                break;
+                            }
+                        }
+                        _ => {
+                            confirmed = false;
+                            break;
+                        }
+                    }
+                }
+                if confirmed {
                     return Outcome::fail(
                         "xor-relation",
                         format!(
-                            "observer {}: an XOR relation over {} view bits (incl. constant) holds on every tape for assignment {} but not for the other one; bits {:?}",
-                            obs, r.len(), name, r.iter().take(24).collect::<Vec<_>>()
+                            "observer {}: {} of {} sampled views under one assignment violate XOR relations that hold on every sampled tape of assignment {} (same-assignment rate {} of {}); confirmed on 3 independent sample sets; assignments {:?} vs {:?}",
+                            obs, out, n, name, base, n, a, b
                         ),
                     );
                 }
